@@ -516,4 +516,80 @@ def inversion_complete(repo: Repo) -> RuleRun:
 
 inversion_complete.rule_id = "C04.INVERSION-COMPLETE"
 
-RULES = [alignment_branch, simple_only_if_equal, preserve_carried, results_before_copy, axis_direction, coincidence_complete, grade_idempotent, axis_length, inversion_complete]
+def live_grading_length(repo: Repo) -> RuleRun:
+    """'... that size is realised on each of the block's four parallel edges and on every block the chop propagates to ...
+    whatever the individual edge lengths (curved edges)': a chop is resolved against the length stored in the wire's Grading.
+    That object is created in Wire.__init__, when the wire still has its default straight edge (and before anything was moved),
+    so every path that resolves chops on a wire - the chopped axis AND the axis that copies its chops from a neighbour - must
+    first give the wire's grading the wire's CURRENT length. Abstract run of grade() of every wire-manager class on four wires
+    whose stored grading length is stale: the length in the grading at the moment add_chop is called must be the wire's own."""
+    r = RuleRun(PROP, "C04.LIVE-GRADING-LENGTH", floor=8, what="every wire manager resolves chops on a wire against the wire's current length (not the length stored when the wire was created with a straight edge)")
+    base = repo.cls("items.wires.manager.WireManagerBase")
+    managers = [c for c in repo.subclasses(base) if c is not base and "grade" in c.methods and not getattr(c, "is_abstract", False)]
+    r.require(len(managers) >= 2, f"only {len(managers)} wire-manager classes found")
+    for cls in sorted(managers, key=lambda c: c.qualname):
+        fn = cls.methods["grade"]
+        wires = []
+        for i in range(4):
+            w = Obj(f"w{i}")
+            g = Obj(f"w{i}.grading0", is_defined=False)
+            g.set("length", Sym(f"stale{i}"))
+            w.set("grading", g)
+            w.set("length", Sym(f"now{i}"))
+            w.set("edge", Obj(f"e{i}", length=Sym(f"now{i}")))
+            w.set("coincidents", set())
+            wires.append(w)
+        this = Obj("mgr", cls=cls)
+        this.set("wires", wires)
+        this.set("chops", [Obj("chopA")])
+        this.set("grading", Obj("axis.grading0", length=Sym("axis-stale"), is_defined=False))
+        seen: Dict[str, List[Any]] = {w._name: [] for w in wires}
+        counter = {"n": 0}
+
+        def hook(ev, call: ast.Call, nm, wires=wires, seen=seen, counter=counter):
+            if nm == "Grading":
+                counter["n"] += 1
+                try:
+                    ln = ev.eval(call.args[0]) if call.args else Sym("no-length")
+                except NotEvaluable:
+                    ln = Sym("axis-length")
+                g = Obj(f"fresh{counter['n']}", is_defined=False)
+                g.set("length", ln)
+                return g
+            if nm == "sum":
+                return Sym("sum")
+            if isinstance(call.func, ast.Attribute):
+                if call.func.attr == "copy_preserving":
+                    return Obj("chop-copy")
+                if call.func.attr == "add_chop":
+                    recv = ev.eval(call.func.value)
+                    for w in wires:
+                        if recv is w or recv is w.get("grading"):
+                            seen[w._name].append(w.get("grading").get("length"))
+                            w.get("grading").set("is_defined", True)
+                    return None
+            return NO_MATCH
+
+        ev = Evaluator(repo=repo, module=fn.module, call_hook=hook)
+        ev.opaque_arith = True
+        _run(ev, fn, [this])
+        for i, w in enumerate(wires):
+            got = seen[w._name]
+            r.require(bool(got), f"{cls.name}.grade resolves no chop on wire {i} of the model")
+            ok = all(isinstance(x, Sym) and x.name == f"now{i}" for x in got)
+            r.check(
+                ok,
+                fn,
+                f"{cls.name}: wire {i} resolved against its current length",
+                f"{cls.name}.grade resolves the chops of wire {i} against the length {got[0]!r} stored in its Grading when the wire was created (straight default edge, original vertex positions) "
+                f"instead of the wire's current length: on a curved or moved edge the preserved first / last cell size is not realised (an arc of length 1.571 over a chord of 1.0 gets cells 57 % too large)",
+                fn.node,
+                key=f"{cls.name}:wire{i}",
+            )
+    return r
+
+
+live_grading_length.rule_id = "C04.LIVE-GRADING-LENGTH"
+
+
+RULES = [alignment_branch, simple_only_if_equal, preserve_carried, results_before_copy, axis_direction, coincidence_complete, grade_idempotent, axis_length, inversion_complete, live_grading_length]
